@@ -61,8 +61,8 @@ fn fdinfo(ep: c_int) -> HashMap<c_int, u32> {
     m
 }
 
-/// the tokens (epoll `data`) the kernel holds for `fd`, per epoll instance (the i-th instance belongs to loop i)
-fn kernel_tokens(fd: c_int) -> Vec<(usize, u64)> {
+/// the tokens (epoll `data`) and event masks the kernel holds for `fd`, per epoll instance (the i-th instance belongs to loop i)
+fn kernel_tokens(fd: c_int) -> Vec<(usize, u64, u32)> {
     let mut v = vec![];
     for (li, ep) in epoll_fds().iter().enumerate() {
         if let Ok(s) = std::fs::read_to_string(format!("/proc/self/fdinfo/{ep}")) {
@@ -72,7 +72,7 @@ fn kernel_tokens(fd: c_int) -> Vec<(usize, u64)> {
                     // tfd: <fd> events: <mask> data: <token> ...
                     if parts.len() >= 5 && parts[0].parse::<c_int>().ok() == Some(fd) {
                         if let Ok(k) = u64::from_str_radix(parts[4], 16) {
-                            v.push((li + 1, k));
+                            v.push((li + 1, k, u32::from_str_radix(parts[2], 16).unwrap_or(0)));
                         }
                     }
                 }
@@ -212,7 +212,7 @@ fn interest(sc: &Value) {
     std::mem::forget(handles);
 }
 
-fn hook_map(mut m: Map<String, Value>) -> Option<Map<String, Value>> {
+fn hook_map(m: Map<String, Value>) -> Option<Map<String, Value>> {
     let ev = m.get("ev").and_then(Value::as_str).unwrap_or("").to_string();
     match ev.as_str() {
         "task_run_b" => {
@@ -261,10 +261,16 @@ fn ready(sc: &Value) {
     let mut handles = vec![];
     for (i, prog) in sc["tasks"].as_array().unwrap().iter().enumerate() {
         let t = i as u64 + 1;
-        // a step is a slot, or [slot, receive timeout in ms] (default 1 s)
-        let seq: Vec<(u64, c_int, u64)> = prog.as_array().unwrap().iter().map(|s| {
+        // a step is a slot, or [slot, receive timeout in ms] (default 1 s): receive one byte; or an object:
+        // {"op": "fill", "fd": slot, "ms": m}  send more than the socket takes, give up after m ms (leaves write interest behind)
+        // {"op": "shut_wr", "fd": slot}        hooked shutdown(SHUT_WR): removes the write interest, the read interest stays
+        let seq: Vec<(u64, c_int, u64, String)> = prog.as_array().unwrap().iter().map(|s| {
+            if let Some(o) = s.as_object() {
+                let slot = o["fd"].as_u64().unwrap();
+                return (slot, slots[&slot], o.get("ms").and_then(Value::as_u64).unwrap_or(0), o["op"].as_str().unwrap().to_string());
+            }
             let (slot, to) = s.as_array().map_or((s.as_u64().unwrap_or(0), 1000), |a| (a[0].as_u64().unwrap(), a[1].as_u64().unwrap()));
-            (slot, slots[&slot], to)
+            (slot, slots[&slot], to, "recv".to_string())
         }).collect();
         let start_ms = sc["starts"].as_array().and_then(|a| a.get(i)).and_then(Value::as_u64).unwrap_or(0);
         let h = EventLoops::submit_task(Some(format!("t{t}-sel")), move |_| {
@@ -273,7 +279,25 @@ fn ready(sc: &Value) {
                     s.delay(Duration::from_millis(start_ms));
                 }
             }
-            for (slot, fd, to_ms) in seq {
+            for (slot, fd, to_ms, op) in seq {
+                if op == "fill" {
+                    let tv = libc::timeval { tv_sec: (to_ms / 1000) as i64, tv_usec: ((to_ms % 1000) * 1000) as i64 };
+                    let _ = syscall::setsockopt(None, fd, libc::SOL_SOCKET, libc::SO_SNDTIMEO, std::ptr::from_ref(&tv).cast(), size_of::<libc::timeval>() as u32);
+                    let big = vec![1u8; 4 << 20];
+                    rec(json!({"ev": "step_b", "task": t, "fd": slot, "op": "fill"}));
+                    let r = syscall::send(None, fd, big.as_ptr().cast(), big.len(), 0);
+                    let e = if r < 0 { unsafe { *libc::__errno_location() } } else { 0 };
+                    let regs: Vec<Value> = kernel_tokens(fd).into_iter().map(|(lp, _, mask)| json!({"loop": lp, "r": mask & 0x1 != 0, "w": mask & 0x4 != 0})).collect();
+                    rec(json!({"ev": "step_e", "task": t, "fd": slot, "op": "fill", "ret": r, "errno": e, "regs": regs}));
+                    continue;
+                }
+                if op == "shut_wr" {
+                    rec(json!({"ev": "step_b", "task": t, "fd": slot, "op": "shut_wr"}));
+                    let r = syscall::shutdown(None, fd, libc::SHUT_WR);
+                    let regs: Vec<Value> = kernel_tokens(fd).into_iter().map(|(lp, _, mask)| json!({"loop": lp, "r": mask & 0x1 != 0, "w": mask & 0x4 != 0})).collect();
+                    rec(json!({"ev": "step_e", "task": t, "fd": slot, "op": "shut_wr", "ret": r, "regs": regs}));
+                    continue;
+                }
                 let mut b = [0u8; 1];
                 let tv = libc::timeval { tv_sec: (to_ms / 1000) as i64, tv_usec: ((to_ms % 1000) * 1000) as i64 };
                 let _ = syscall::setsockopt(None, fd, libc::SOL_SOCKET, libc::SO_RCVTIMEO, std::ptr::from_ref(&tv).cast(), size_of::<libc::timeval>() as u32);
@@ -295,9 +319,9 @@ fn ready(sc: &Value) {
             std::thread::sleep(Duration::from_millis(1));
         }
         // ground truth just before the descriptor becomes ready: whose token does the kernel hold for it?
-        let toks: Vec<Value> = kernel_tokens(slots[&slot]).into_iter().map(|(lp, k)| {
+        let toks: Vec<Value> = kernel_tokens(slots[&slot]).into_iter().map(|(lp, k, mask)| {
             let task = CO2TASK.lock().unwrap().as_ref().and_then(|m| m.get(&k)).copied().unwrap_or(0);
-            json!({"loop": lp, "task": task})
+            json!({"loop": lp, "task": task, "r": mask & 0x1 != 0})
         }).collect();
         rec(json!({"ev": "write", "fd": slot, "toks": toks}));
         let b = [7u8; 1];
